@@ -49,6 +49,20 @@ CLAIMED = {
         note=COMMON_NOTE + 'Well-formedness of the child\'s stream is property C09; F2 atomicity of hook implementations is assumed and '
              'exercised. Clauses "prompt open then closed with its command" and "notices match starts" are checked by correspondence + oracle only.',
         technique='Lean 4 simulation/invariant proof over event lists + differential correspondence (hand-written model) + oracle'),
+    'C19': dict(
+        text=('Theorems over model J (labelled transition systems of merge_aiters, agen_with_wait, to_aiter) for every label list — any number and '
+              'length of sources, every completion order including several completions before one wake-up and completions while suspended at '
+              'yield, every set.pop() order: per source, what the consumer received is in order and without duplication a prefix of what the '
+              'source produced, and all of it once the merged iteration has ended; tags name existing sources; no reachable non-final state is '
+              'deadlocked; agen_with_wait yields a prefix of the wrapped iterator (all of it when it ends normally), a wake-up that yields or '
+              'ends has seen no failed awaited task, and a raised exception is that of an awaited task; to_aiter yields exactly the iterable. '
+              'Tied to /repo by trace acceptance: the real helpers run under a permuting event loop (all schedules of small configurations by '
+              'DFS, seeded random schedules of larger ones) with instrumented sources, and the exact observed label sequence must be accepted '
+              'by the compiled model and end in a terminal state; plus an independent oracle.'),
+        design='§6 C19, §5 model J',
+        note=COMMON_NOTE + 'Termination is shown as absence of deadlock under the assumption that pending source tasks eventually complete and the '
+             'consumer keeps iterating; asyncio.wait/ensure_future semantics are modelled.',
+        technique='Lean 4 invariant proof over label lists (LTS) + trace-acceptance correspondence under a permuting event loop'),
 }
 
 REASON_TODO = 'check not built yet in this revision of /verif (planned, see DESIGN.md §6); not claimed until its theorems and correspondence exist'
